@@ -81,8 +81,8 @@ func (p *Parser) parseNext() error {
 		return nil
 	}
 
-	// Check if it's an operator (starts with letter)
-	if isLetter(c) {
+	// Check if it's an operator (starts with a letter, or is ' or ")
+	if isLetter(c) || c == '\'' || c == '"' {
 		return p.parseOperator()
 	}
 
